@@ -403,6 +403,15 @@ func c06BadFile(r *Run, t *Tape, good []byte, cur ltx.Pos, pageSize uint32) ([]b
 		}
 		i := ltx.HeaderSize + t.Next(len(b)-ltx.HeaderSize-ltx.TrailerSize)
 		b[i] ^= byte(1 << t.Next(8))
+		// Not every byte of a compressed body carries information (LZ4 frame
+		// flags, reserved bits): a flip after which the file still verifies and
+		// decodes to the very same transaction is not a damaged file.
+		if g, err := DecodeLTX(bytes.NewReader(good)); err == nil {
+			if m, err := DecodeLTX(bytes.NewReader(b)); err == nil && sameLTX(g, m) {
+				r.Count("c06.offered.benign-flip")
+				return nil, ""
+			}
+		}
 		return b, "corrupt-body"
 	case 4: // truncated
 		if len(good) < 10 {
@@ -414,6 +423,19 @@ func c06BadFile(r *Run, t *Tape, good []byte, cur ltx.Pos, pageSize uint32) ([]b
 		b[len(b)-1-t.Next(8)] ^= 0x40
 		return b, "file-checksum"
 	}
+}
+
+// sameLTX reports whether two decoded files describe the same transaction.
+func sameLTX(a, b *LTXFile) bool {
+	if a.Header != b.Header || a.Trailer != b.Trailer || len(a.Pages) != len(b.Pages) || fmt.Sprint(a.Pgnos) != fmt.Sprint(b.Pgnos) {
+		return false
+	}
+	for pg, d := range a.Pages {
+		if !bytes.Equal(d, b.Pages[pg]) {
+			return false
+		}
+	}
+	return true
 }
 
 func c06Offered(r *Run) {
